@@ -892,4 +892,21 @@ SEEDS = [
                 self.fix_red_black_properties_after_delete(p_index);
             }""",
          new="""            parent.color = Color::Black;""", note='parent painted black unconditionally, no climb'),
+
+    # --- C14: skeleton of the layout arithmetic (round 8) ----------------------------------------------------------
+    dict(id='LY1-layout-refuses-up-to-31-points', props=['C14'], file='src/seg/layout.rs',
+         old="""        if len < Heap32::POWER as usize {""",
+         new="""        if len < 32 {""", note='domains of 17..31 points are refused'),
+    dict(id='LY2-layout-threshold-le', props=['C14'], file='src/seg/layout.rs',
+         old="""        if p < Heap32::POWER {""",
+         new="""        if p + 1 < Heap32::POWER {""", note='8..16 points get a degenerate layout (and the shift underflows)'),
+    dict(id='LY3-layout-exponent-from-len', props=['C14'], file='src/seg/layout.rs',
+         old="""        let p = (len - 1).ilog2() + 1;""",
+         new="""        let p = len.ilog2() + 1;""", note='bucket width twice the minimum for lengths that are a power of two'),
+    dict(id='LY4-layout-index-from-max', props=['C14'], file='src/seg/layout.rs',
+         old="""        ((value - self.min) >> self.scale) as u32""",
+         new="""        ((self.max - value) >> self.scale) as u32""", note='position counted from the maximum: not monotone'),
+    dict(id='LY5-layout-exponent-short', props=['C14', 'C10'], file='src/seg/layout.rs',
+         old="""        let p = (len - 1).ilog2() + 1;""",
+         new="""        let p = (len - 2).ilog2() + 1;""", note='hi can map to bucket 32'),
 ]
